@@ -596,6 +596,16 @@ _ADD21 = {
     "C18": " The real-signals kind may run two handlers on the default notifier.",
     "C20": " Requests may already carry a logger in their context; nothing may be logged through it.",
 }
+_ADD22 = {
+    "C08": " The over-long-line test also parses into destinations that are no HandleSet and requires the scanner's failure in the returned error.",
+    "C11": " Vast-capacity ring histories include Clear; capacities 2^16, 2^20, 2^24 added.",
+    "C15": " Underlying readers also fail with errors that wrap io.EOF or report it through an Is method; the error's identity must pass through.",
+    "C17": " Callers of a key whose constructor panicked may receive a result only if a construction of that key completed.",
+    "C20": " The sink refuses status codes outside 100..999 by panicking (as net/http does); invocations may set such a code, finished reports it.",
+}
+for _pid, _lt in _ADD22.items():
+    PROPS[_pid]["level_text"] += _lt
+
 for _pid, _lt in _ADD21.items():
     PROPS[_pid]["level_text"] += _lt
 
